@@ -297,6 +297,54 @@ def rule_enum(ctx, py):
             facts |= set(pya.atoms(n.test, True))
     ctx.check(("len(environments) == 0", True) in facts, R, f, f._qual, "empty environment list raises", "", "not tested")
     ctx.check(("e == 'default'", True) in facts, R, f, f._qual, "environment named 'default' raises", "", "not tested")
+    # ... and what is stored has been through these tests: on every path to a store of self._environments the raising tests
+    # stand before it (a branch that stores a tuple `as it is` skips them)
+
+    def before(st):
+        """If-statements with a raise that are executed on every path before statement st (preceding siblings of st and of its
+        ancestors; the body of a preceding for-loop counts, it runs for every element)"""
+        out = []
+        cur = st
+        while cur is not None and cur is not f:
+            par = pyfe.parent(cur)
+            for fld in ("body", "orelse"):
+                blk = getattr(par, fld, None)
+                if isinstance(blk, list) and any(cur is x for x in blk):
+                    k_ = [x is cur for x in blk].index(True)
+                    out += must_tests(blk[:k_])
+            cur = par
+        return out
+
+    def ends(blk):
+        return bool(blk) and (isinstance(blk[-1], (ast.Raise, ast.Return)) or
+                              (isinstance(blk[-1], ast.If) and ends(blk[-1].body) and ends(blk[-1].orelse)))
+
+    def must_tests(blk):
+        """raising If-statements evaluated on every path that runs through blk and continues after it"""
+        out = []
+        for st_ in blk:
+            if isinstance(st_, ast.For):
+                out += must_tests(st_.body)
+            elif isinstance(st_, ast.If):
+                if ends(st_.body):
+                    out.append(st_)
+                    out += must_tests(st_.orelse)
+                elif ends(st_.orelse):
+                    out += must_tests(st_.body)
+                else:
+                    a_, b_ = must_tests(st_.body), must_tests(st_.orelse)
+                    out += [x for x in a_ if any(x is y for y in b_)]
+        return out
+    stores_ = [st for st in ast.walk(f) if isinstance(st, ast.Assign) and pyfe.src(st.targets[0]) == "self._environments"]
+    ctx.need(stores_, R, "environments setter: store to self._environments not found")
+    for st in stores_:
+        at_ = set()
+        for x in before(st):
+            at_ |= set(pya.atoms(x.test, True))
+        miss = [w for w in (("len(environments) == 0", True), ("e == 'default'", True)) if w not in at_]
+        ctx.check(not miss, R, st, f._qual, pyfe.src(st)[:60] + " after the tests", "every stored list has been tested",
+                  "`%s` is reached without the test `%s`: an empty list / the reserved name 'default' is stored when the value "
+                  "comes in this form" % (pyfe.src(st)[:50], miss[0][0] if miss else ""))
     # grid sizes > 0
     f = py.fn("rdgridspace.RDGridSpace.__init__")
     facts = set()
